@@ -172,6 +172,12 @@ def run(R, ctx):
             "collision_free_infix_for_rotated_file slices and parses the four bytes after `.restart-` of a listed file without the sibling filter "
             "having checked that they are four ASCII digits: a foreign file `<infix>.restart-xy.<suffix>` makes the next rotation / start panic under the state lock",
             where='src/parameters/file_spec.rs')
+    same, why = restart_same_string(ctx)
+    R.check('R10.1', 'restart-number-parsed-in-the-string-the-filter-examined', same,
+            "the restart number is looked up in the same path component the sibling filter examined",
+            f"collision_free_infix_for_rotated_file: {why} — the filter's guarantee (token followed by four ASCII digits) does not carry over to that string, "
+            "so `find(\".restart-\").unwrap()` / the slice / `parse().unwrap()` can panic under the state lock (e.g. a log directory whose own name contains `.restart-`)",
+            where='src/parameters/file_spec.rs', witness=why)
     user_callbacks(R, ctx)
     lock_order(R, ctx)
     # R10.5 / R10.6
@@ -201,6 +207,45 @@ def restart_sibling_guard(ctx):
     checked_get = any(re.search(r'str>?::get$', n) for n in names)
     filt = any(re.search(r'Iterator>?::filter$', callee_name(t)) for _, t in b.calls())
     return digit and checked_get and filt
+
+
+COMPONENT = re.compile(r'^std::path::Path::(file_name|file_stem|extension|parent|file_prefix)$')
+
+
+def restart_same_string(ctx):
+    """the guard of restart_sibling_guard is established on one string (a component of the candidate path); the unwraps it discharges
+    operate on a string looked up again after the sort.  Necessary for the guard to carry over: both strings are the SAME component of
+    the path (the set of Path component accessors in the provenance of every `str::find` receiver is the same on both sides, and is not
+    empty = not the whole path, whose directory part the filter never examined)."""
+    f, cg, ip = ctx.f, ctx.cg, ctx.ip
+    b = ctx.body(r'^parameters::file_spec::FileSpec::collision_free_infix_for_rotated_file$')
+    scope = [b.path] + [x for x in cg.reachable([b.path], spawn=False) if x in f.bodies and x != b.path and
+                        (x.startswith(b.path + '::{closure') or only_called_from(cg, root_fn(x), {b.path}))]
+    guard_side, parse_side = [], []
+    for x in scope:
+        xb = f.bodies[x]
+        names = {callee_name(t) for _, t in xb.calls()}
+        for bb, t in xb.calls():
+            if not re.search(r'str>?::find(::<.*>)?$', callee_name(t)):
+                continue
+            roots = {r_ for (_, r_) in ip.expand(x, ip.prov(x).op_roots(t['args'][0]))}
+            comp = sorted({COMPONENT.search(r_[1]).group(1) for r_ in roots if r_[0] == 'call' and COMPONENT.search(r_[1])})
+            whole = [r_ for r_ in roots if r_[0] in ('call', 'param') and not (r_[0] == 'call' and COMPONENT.search(r_[1]))]
+            entry = (x, xb.blocks[bb].get('line') if isinstance(xb.blocks[bb], dict) else None, comp, bool(whole))
+            # the guard side is the `find` whose result feeds the checked get / is_ascii_digit test
+            (guard_side if any(re.search(r'is_ascii_digit$|str>?::get(::<.*>)?$', n) for n in names | {callee_name(t2) for y in scope if y.startswith(x + '::{closure') for _, t2 in f.bodies[y].calls()})
+             and x != b.path else parse_side).append(entry)
+    if not guard_side or not parse_side:
+        raise CheckError(f"R10.1 restart number: guard side {guard_side} / parse side {parse_side} not recognised")
+    g = {tuple(e[2]) for e in guard_side}
+    if len(g) != 1 or any(e[3] for e in guard_side) or not next(iter(g)):
+        raise CheckError(f"R10.1 restart number: the sibling filter does not examine one path component: {guard_side}")
+    gc = next(iter(g))
+    for e in parse_side:
+        if e[3] or tuple(e[2]) != gc:
+            return False, (f"the sibling filter examines {'/'.join(gc)}() of the candidate, but the number is then looked up in "
+                           f"{('/'.join(e[2]) + '()') if e[2] else ''}{' and ' if e[2] and e[3] else ''}{'the whole path' if e[3] else ''} ({e[0]})")
+    return True, f"both sides: {'/'.join(gc)}()"
 
 
 def user_callbacks(R, ctx):
